@@ -2,12 +2,12 @@ package zv
 
 import (
 	"go/ast"
-	"go/types"
 	"go/constant"
-	"strconv"
 	"go/token"
+	"go/types"
 	"regexp"
 	"sort"
+	"strconv"
 	"strings"
 
 	"golang.org/x/tools/go/ssa"
